@@ -26,6 +26,16 @@ def run_property(prop_id: str, tier: str) -> int:
         run = Run(prop_id, tier, seed)
         prog = Program()
         explanation = mod.check(run, prog, tier)
+        if (tier == "thorough" and not run.violations and hasattr(mod, "run_rules")
+                and not os.environ.get("VERIF_SELFTEST") and os.environ.get("VERIF_SWEEP", "1") != "0"):
+            from .engine.mutate import sweep
+
+            res = sweep(run, prop_id, prog)
+            run.extra_cov["sensitivity_sweep"] = res
+            if res.get("mutants"):
+                print(f"  sensitivity sweep: {res['mutants']} single-point mutants of {res['functions']} analysed "
+                      f"functions: {res['rejected']} rejected, {res['failed_closed']} failed closed, "
+                      f"{res['accepted']} accepted (listed in the evidence)")
         return run.finish(explanation)
 
     return run_guarded(prop_id, body)
